@@ -76,6 +76,10 @@ func (x *cb) Callback(e *waiter.Entry) {
 	x.c.mu.Lock()
 	out := x.c.byG[g]
 	if out != nil {
+		if len(*out) > 4096 {
+			x.c.mu.Unlock()
+			panic("runaway: one Notify produced more than 4096 callbacks")
+		}
 		*out = append(*out, x.id)
 	} else {
 		atomic.AddInt64(&x.c.lost, 1) // callback outside any Notify call
@@ -85,7 +89,7 @@ func (x *cb) Callback(e *waiter.Entry) {
 
 // ---- sequential exhaustive ------------------------------------------------
 
-func replaySeq(seq []op, nent int) string {
+func replaySeq(seq []op, nent int) (msg string) {
 	var q waiter.Queue
 	col := &collector{byG: map[int64]*[]int{}, single: true}
 	ents := make([]waiter.Entry, nent)
@@ -93,6 +97,48 @@ func replaySeq(seq []op, nent int) string {
 		ents[i] = waiter.Entry{Callback: &cb{i, col}}
 	}
 	ref := make([]waiter.EventMask, nent) // 0 = not registered
+	// structure walks the intrusive list from every registered entry with a step
+	// bound: it must reach the end within nent steps and pass only registered entries.
+	structure := func() string {
+		idx := map[*waiter.Entry]int{}
+		for i := range ents {
+			idx[&ents[i]] = i
+		}
+		for i := range ents {
+			if ref[i] == 0 {
+				continue
+			}
+			for _, dir := range []string{"next", "prev"} {
+				cur := &ents[i]
+				for steps := 0; ; steps++ {
+					if steps > nent {
+						return fmt.Sprintf("the queue's list has a cycle (following %s from entry %d)", dir, i)
+					}
+					var nx interface{}
+					if dir == "next" {
+						nx = cur.Next()
+					} else {
+						nx = cur.Prev()
+					}
+					e, _ := nx.(*waiter.Entry)
+					if e == nil {
+						break
+					}
+					j, known := idx[e]
+					if !known || ref[j] == 0 {
+						return fmt.Sprintf("an unregistered entry is still linked into the queue (reached via %s from entry %d)", dir, i)
+					}
+					cur = e
+				}
+			}
+		}
+		return ""
+	}
+	defer func() {
+		if r := recover(); r != nil {
+			msg = fmt.Sprintf("panic: %v", r)
+		}
+	}()
 	for si, o := range seq {
 		switch o.Kind {
 		case "reg":
@@ -101,6 +147,11 @@ func replaySeq(seq []op, nent int) string {
 		case "unreg":
 			q.EventUnregister(&ents[o.Entry])
 			ref[o.Entry] = 0
+		}
+		if m := structure(); m != "" {
+			return fmt.Sprintf("step %d %+v: %s", si, o, m)
+		}
+		switch o.Kind {
 		case "notify":
 			var got []int
 			col.begin(&got)
@@ -272,6 +323,13 @@ func concurrent() {
 				hw.Add(1)
 				go func() {
 					defer hw.Done()
+					defer func() {
+						if r := recover(); r != nil {
+							// the queue's lock is left held by the unwound Notify: give up on this process
+							run.Violation("C17/concurrent/runaway-notify", fmt.Sprintf("Notify did not terminate normally: %v", r), describe(rec.Ops()))
+							os.Exit(run.Finish("", nil))
+						}
+					}()
 					var mine []int
 					for e := c; e < centries; e += g {
 						mine = append(mine, e)
